@@ -187,6 +187,8 @@ def examine_threads(case):
     jobs = case["jobs"]
     if case.get("literals"):
         return examine_literal_threads(case)
+    if case.get("typed"):
+        return examine_typed_compile_threads(case)
     ndocs = len(case["docs"])
     # expected[k][d]: job k applied to document d (threads spread the shared compiled queries over all documents)
     expected_all = [[ev.find(j["ast"], case["docs"][d]) for d in range(ndocs)] for j in jobs]
@@ -197,6 +199,9 @@ def examine_threads(case):
     # half of the jobs use one compiled query object shared by all threads (each thread still advances its own
     # iterator); the other half compile concurrently on the shared environment
     shared = {i: env.compile(j["q"]) for i, j in enumerate(jobs) if i % 2 == 0}
+    # str() of a compiled query is part of its behaviour: the text each thread gets for a shared query (first
+    # serialisation included) must be the one a separately compiled copy gives sequentially
+    expected_str = [str(env.compile(j["q"])) for j in jobs]
 
     def worker(tid):
         try:
@@ -210,6 +215,10 @@ def examine_threads(case):
                         cq = env.compile(j["q"])
                     else:
                         d = (tid + rep) % ndocs   # the same compiled query on different documents at the same time
+                    text = str(cq)
+                    if text != expected_str[k % len(jobs)]:
+                        errors.append((tid, j["q"], expected_str[k % len(jobs)], text))
+                        return
                     it = iter(cq.finditer(case["docs"][d]))
                     got = []
                     for node in it:
@@ -280,13 +289,82 @@ def examine_literal_threads(case):
     return None
 
 
+def examine_typed_compile_threads(case):
+    """Threads compile, on one shared environment with typed functions registered, queries whose validity depends on
+    the declared parameter types (parenthesised / negated arguments included); every verdict must be the sequential one."""
+    from checks import c10
+    old = sys.getswitchinterval()
+    env = c10.lib_env()
+    items = case["typed"]          # [(query text, expected "ok" | "err")]
+    errors = []
+    barrier = threading.Barrier(8)
+
+    def worker(tid):
+        try:
+            barrier.wait()
+            for rep in range(case.get("reps", 4)):
+                for k in range(len(items)):
+                    q, want = items[(k + tid * 3) % len(items)]
+                    try:
+                        env.compile(q)
+                        got = "ok"
+                    except Exception as e:  # noqa: BLE001
+                        from jsonpath_rfc9535 import JSONPathError
+                        got = "err" if isinstance(e, JSONPathError) else "exception:" + type(e).__name__
+                    if got != want:
+                        errors.append((tid, q, want, got))
+                        return
+        except Exception as e:  # noqa: BLE001
+            errors.append((tid, "exception", type(e).__name__, str(e)[:200]))
+
+    sys.setswitchinterval(1e-6)
+    try:
+        ts = [threading.Thread(target=worker, args=(t,)) for t in range(8)]
+        for t in ts:
+            t.start()
+        for t in ts:
+            t.join()
+    finally:
+        sys.setswitchinterval(old)
+    if errors:
+        e = errors[0]
+        return fail("threads:typed-compile", f"thread {e[0]}: compile({e[1]!r}) concurrently on a shared environment gives {e[3]}, "
+                    f"sequentially (and by the type rules) it is {e[2]}", e[2], e[3])
+    return None
+
+
 def plan(tier, seed):
     if tier == "quick":
         return [{"n": 250, "threads": 10} for _ in range(16)]
     return [{"n": 3000, "threads": 125} for _ in range(16)]
 
 
+def gen_wide_case(r):
+    """Two documents that differ in what '$' refers to, each with a wide container (24-70 children) under a filter that
+    compares the children with a '$' query; two or three iterators from ONE compiled query."""
+    from vlib.ref import abnf
+    n = r.choice([23, 24, 25, 32, 40, 64, 70])
+    key = r.choice(["t", "limit", "k"])
+    col = r.choice([None, "a", "n"])
+    docs = []
+    for _ in range(2):
+        t = r.choice([0, 1, 5, 10, 20, 3.5, "b", None, True])
+        items = [(r.randrange(0, 30) if r.random() < 0.8 else r.choice(["a", "c", None, True, 2.5])) for _ in range(n)]
+        if col:
+            items = [{col: v} for v in items]
+        docs.append({key: t, "items": items} if r.random() < 0.8 else {"items": items, key: t})
+    left = "@" + ("." + col if col else "")
+    op = r.choice([">", "<", "==", "!=", ">=", "<="])
+    q = r.choice([f"$.items[?{left} {op} $.{key}]", f"$.items[?$.{key} {op} {left}]", f"$..[?{left} {op} $.{key}]"])
+    ast = abnf.parse(q)
+    k = r.choice([2, 2, 3])
+    iters = [{"q": q, "ast": ast, "doc": i % 2, "share": "s0", "env": "default"} for i in range(k)]
+    return {"iters": iters, "docs": docs}
+
+
 def gen_iter_case(r, shard, tier):
+    if r.random() < 0.12:
+        return gen_wide_case(r)
     ndocs = r.choice([1, 1, 2])
     docs = [diff.make_doc(r, "quick", names=NAMES, falsy_bias=0.15) for _ in range(ndocs)]
     k = r.choice([2, 2, 3])
@@ -416,6 +494,34 @@ def run_shard(spec, shard):
             shard.fail(f["bucket"], case, f)
 
     drive(rng(), max(2, spec["threads"] // 3), spec["seed"] + 4, lbody)
+
+    def cbody(r):
+        from checks import c10
+        from vlib.ref import abnf, typecheck
+        # calls whose only argument is a parenthesised / negated / bare query or call, for parameters of every type
+        one = [n for n, (ps, _) in c10.SIGS.items() if len(ps) == 1]
+        zero_n = [n for n, (ps, rt) in c10.SIGS.items() if not ps]
+        items = []
+        for _ in range(14):
+            f = r.choice(one + ["count", "length", "value"])
+            inner = r.choice(["@.a", "$", "@.*", r.choice(zero_n) + "()", r.choice(one) + "(@.a)", "1", "@.a == 1"])
+            arg = r.choice(["%s", "(%s)", "((%s))", "!%s", "!(%s)", "( %s )"]) % inner
+            ret = c10.REG[f]["ret"]
+            q = "$[?%s(%s)%s]" % (f, arg, " == 1" if ret == "Value" else "")
+            res = abnf.classify(q)
+            if res.verdict == abnf.DISPUTED:
+                continue
+            ok = res.verdict == abnf.VALID and typecheck.check(res.ast, c10.REG) is None
+            items.append((q, "ok" if ok else "err"))
+        if len(items) < 4:
+            return
+        case = {"kind": "threads", "jobs": [], "docs": [], "typed": items, "reps": 4}
+        shard.case(key=items, nontrivial=True, classes={"thread-round", "thread-round:typed-compile"}, sample={"typed": items[:4]})
+        f = examine(case)
+        if f:
+            shard.fail(f["bucket"], case, f)
+
+    drive(rng(), max(2, spec["threads"] // 2), spec["seed"] + 5, cbody)
 
 
 def minimise(case, failure, tier):
